@@ -137,7 +137,7 @@ func Run(s *simrt.Sim, a *harness.Args, r *harness.Result) {
 			ctx := context.Background()
 			for _, o := range script {
 				if o.sleep > 0 {
-					time.Sleep(o.sleep)
+					simrt.Sleep(o.sleep)
 					simrt.Yield("worker:woke")
 				}
 				simrt.Point("worker:get", o.key)
@@ -177,7 +177,7 @@ func Run(s *simrt.Sim, a *harness.Args, r *harness.Result) {
 				c.owner = name
 				c.returnedLive = false
 				if o.hold > 0 {
-					time.Sleep(o.hold)
+					simrt.Sleep(o.hold)
 					simrt.Yield("worker:held")
 				}
 				simrt.Point("worker:use", fmt.Sprintf("c%d", c.id))
@@ -222,7 +222,7 @@ func Run(s *simrt.Sim, a *harness.Args, r *harness.Result) {
 		})
 	case 2:
 		s.Spawn("closer", nil, func() {
-			time.Sleep([]time.Duration{time.Second, w.lifetime + time.Second, 62 * time.Second}[closeAfter%3])
+			simrt.Sleep([]time.Duration{time.Second, w.lifetime + time.Second, 62 * time.Second}[closeAfter%3])
 			simrt.Yield("closer:woke")
 			closer()
 		})
